@@ -92,7 +92,7 @@ def run_sequence(ctx: Ctx, spec, reqs):
         # a later minute of the same hour: same book, market closed for trading
         from demeter.deribit import DeribitMarketStatus
         data = rig.market.market_status.data
-        rig.market.set_market_status(DeribitMarketStatus(timestamp=L.ts_of(spec["now"]), data=data), price=rig.market._price_status)
+        rig.market.set_market_status(DeribitMarketStatus(timestamp=L.ts_of(spec["now"]), data=data), price=L.market_prices(rig.market))
         rig.market.is_open = False
     rep = {"spec": spec}
     bar = "open" if spec["open"] else "closed"
